@@ -76,12 +76,13 @@ structure ErrMono (c c' : St) : Prop where
   ret : c'.ret = c.ret
   d : c'.d = c.d
   h : c'.h = c.h
+  gf : c'.gf = c.gf
   err : c.err.isSome = true → c'.err.isSome = true
 
-theorem ErrMono.refl (c : St) : ErrMono c c := ⟨rfl, rfl, rfl, rfl, rfl, rfl, id⟩
+theorem ErrMono.refl (c : St) : ErrMono c c := ⟨rfl, rfl, rfl, rfl, rfl, rfl, rfl, id⟩
 
 theorem ErrMono.trans {a b c : St} (h1 : ErrMono a b) (h2 : ErrMono b c) : ErrMono a c :=
-  ⟨h2.wd.trans h1.wd, h2.wh.trans h1.wh, h2.lb.trans h1.lb, h2.ret.trans h1.ret, h2.d.trans h1.d, h2.h.trans h1.h,
+  ⟨h2.wd.trans h1.wd, h2.wh.trans h1.wh, h2.lb.trans h1.lb, h2.ret.trans h1.ret, h2.d.trans h1.d, h2.h.trans h1.h, h2.gf.trans h1.gf,
    fun h => h2.err (h1.err h)⟩
 
 theorem Rel.mono {p : APt} {c c' : St} (r : Rel p c) (m : ErrMono c c') : Rel p c' := by
